@@ -342,9 +342,18 @@ pub trait Language: Debug + Clone + Hash + Eq + Ord {
             prv = self.private_slots();
         }
 
+        // all occurrences of an unmapped slot have to get the same fresh slot.
+        let mut m = m.clone();
         let mut c = self.clone();
         for x in c.public_slot_occurrences_mut() {
-            let y = m.get(*x).unwrap_or_else(Slot::fresh);
+            let y = match m.get(*x) {
+                Some(y) => y,
+                None => {
+                    let y = Slot::fresh();
+                    m.insert(*x, y);
+                    y
+                }
+            };
 
             // If y collides with a private slot, we have a problem.
             if CHECKS {
